@@ -723,6 +723,11 @@ def cases(ctx):
     fsrcs = [core_fn_program(ctx.rng, typed=(k % 2 == 0)) for k in range(ctx.scale(1200, 60000))] + CORE_FN_FIXED
     fl = lang_lines(ctx, fsrcs, op="core")
     out += [Case(l, ("core-fn",), extra={"src": s}) for l, s in zip(fl, fsrcs)]
+    # the same fragment programs are also judged by the executable specification (Spec/Ref): Core's evaluator and
+    # Spec/Ref are two separate semantics, related by no theorem — both must agree with the real pipeline on these programs
+    both = csrcs[: len(csrcs) // 2] + fsrcs
+    el = lang_lines(ctx, both)
+    out += [Case(l, ("core-by-ref",), extra={"src": s}) for l, s in zip(el, both)]
     return out
 
 
